@@ -779,6 +779,22 @@ func findCommodityStart(line string, byteCol int) int {
 		commodityStart++
 	}
 
+	// behind a cost or a balance assertion the commodity being typed is that of
+	// the amount after the last '@', '@@', '=' or '==' before the cursor
+	if byteCol <= len(line) && commodityStart < byteCol {
+		if op := strings.LastIndexAny(line[commodityStart:byteCol], "@="); op >= 0 {
+			start := commodityStart + op + 1
+			for start < byteCol && line[start] == ' ' {
+				start++
+			}
+			start += findAmountEnd(line[start:byteCol])
+			for start < byteCol && line[start] == ' ' {
+				start++
+			}
+			commodityStart = start
+		}
+	}
+
 	return commodityStart
 }
 
